@@ -350,6 +350,11 @@ def d7(prog: Program, chk: Check) -> None:
     containers_keep_values(prog, chk, "D7", which={"AugmentedMPS"})
 
 
+def d8(prog: Program, chk: Check) -> None:
+    from rules import c10
+    c10.i7(prog, chk, rule="D8")
+
+
 def run(prog: Program, chk: Check) -> None:
     chk.explanation = (
         "Claims C04 IN PART: the clauses that hold by construction. D1 every Lindblad dissipator "
@@ -376,3 +381,4 @@ def run(prog: Program, chk: Check) -> None:
     from rules.c03 import m7
     chk.call(m7, prog, chk, rule="D6")
     chk.call(d7, prog, chk)
+    chk.call(d8, prog, chk)
